@@ -19,19 +19,17 @@ open Mhd.Resp Mhd.Reply Mhd.ReplyStr
 
 /-! ### reply properties of an upgrade response -/
 
-/-- `setup_reply_properties` for a response with an upgrade handler and a 1xx status on a connection
-    that is not already in MUST_CLOSE: `keepalive = MHD_CONN_MUST_UPGRADE`, no body, no body headers -/
-theorem setup_upgrade (c : Mhd.Reply.Conn) (r : Mhd.Resp.Resp) (code : Nat) (hu : r.upgrade = true)
-    (hk : c.keepalive ≠ .mustClose) (hc : code ≤ 199) :
+/-- `setup_reply_properties` for a response with an upgrade handler and a 1xx status — on ANY connection, also one
+    that is already in MUST_CLOSE (request with ambiguous framing): `keepalive_possible` decides the upgrade first
+    (fix F37, `Mhd.C04.upgrade_reply_no_close`): `keepalive = MHD_CONN_MUST_UPGRADE`, no body, no body headers -/
+theorem setup_upgrade (c : Mhd.Reply.Conn) (r : Mhd.Resp.Resp) (code : Nat) (hu : r.upgrade = true) (hc : code ≤ 199) :
     setupReplyProperties c r code = (.mustUpgrade, ⟨false, false, false⟩) := by
-  have hk' : (c.keepalive == KA.mustClose) = false := by
-    cases h : c.keepalive <;> simp_all
   have hb : isReplyBodyNeeded c.mthd code = .none := by
     unfold isReplyBodyNeeded
     have : (199 ≥ code) := hc
     simp [this]
   unfold setupReplyProperties keepalivePossible
-  simp [hk', hu, hb]
+  simp [hu, hb]
 
 /-! ### what the application stored, as wire fields -/
 
@@ -149,12 +147,12 @@ def fields101 (c : Mhd.Reply.Conn) (r : Mhd.Resp.Resp) (date : Bytes) : List Fie
 /-- **the 101 head, explicitly**: status line, the automatic Date (unless suppressed / supplied by
     the application), the application's headers verbatim in order, empty line — nothing else -/
 theorem headBytes_upgrade (c : Mhd.Reply.Conn) (r : Mhd.Resp.Resp) (code : Nat) (date : Bytes) (hinv : Inv r)
-    (hu : r.upgrade = true) (hk : c.keepalive ≠ .mustClose) (hc : code ≤ 199) :
+    (hu : r.upgrade = true) (hc : code ≤ 199) :
     headBytes c r code date =
       versionStr r false ++ [32] ++ codeDigits code ++ [32] ++ reasonPhrase code ++ crlf
         ++ ((fields101 c r date).map fieldLine).flatten ++ crlf := by
   unfold headBytes
-  rw [setup_upgrade c r code hu hk hc]
+  rw [setup_upgrade c r code hu hc]
   simp only [headSegs, List.map_append, List.flatten_append, map_fieldSeg_pieces, dateSegs_pieces,
     connFields_upgrade, userFields_upgrade c r hinv, fields101]
   simp [segStr, bodyHdrSegs, crlf, List.append_assoc]
@@ -192,12 +190,12 @@ theorem runSegs_fits (bs : Nat) : ∀ (segs : List Seg) (buf : Bytes),
     omega
 
 /-- the head of an upgrade reply does not depend on the request (version, method, early reply,
-    the request's own "Connection: close" / "keep-alive" tokens, half-closed socket) -/
+    the request's own "Connection: close" / "keep-alive" tokens, half-closed socket, a MUST_CLOSE forced by the
+    request's framing) -/
 theorem headBytes_indep_of_request (c c' : Mhd.Reply.Conn) (r : Mhd.Resp.Resp) (code : Nat) (date : Bytes)
-    (hinv : Inv r) (hu : r.upgrade = true) (hk : c.keepalive ≠ .mustClose) (hk' : c'.keepalive ≠ .mustClose)
-    (hs : c.suppressDate = c'.suppressDate) (hc : code ≤ 199) :
+    (hinv : Inv r) (hu : r.upgrade = true) (hs : c.suppressDate = c'.suppressDate) (hc : code ≤ 199) :
     headBytes c r code date = headBytes c' r code date := by
-  rw [headBytes_upgrade c r code date hinv hu hk hc, headBytes_upgrade c' r code date hinv hu hk' hc]
+  rw [headBytes_upgrade c r code date hinv hu hc, headBytes_upgrade c' r code date hinv hu hc]
   simp [fields101, dateFields, hs]
 
 /-! ### response objects an application can build -/
